@@ -11,6 +11,9 @@ ROOT = os.path.dirname(HERE)
 DRIVER = os.path.join(ROOT, "ocaml", "driver")
 IMPL = os.path.join(HERE, "implrun.py")
 PY = "/venv/bin/python"
+SHARD_TIMEOUT = int(os.environ.get("VERIF_SHARD_TIMEOUT", "900"))
+REQUEST_TIMEOUT = int(os.environ.get("VERIF_REQUEST_TIMEOUT", "60"))
+SKIPPED = []   # ids of requests skipped for resource reasons in this process
 
 
 def make_stream(reqs):
@@ -48,11 +51,30 @@ def run_both(reqs, shards=16, impl_env=None):
     parts = [reqs[i::shards] for i in range(shards)]
     model, impl = {}, {}
 
-    def work(part):
+    def both(part, timeout):
         data = make_stream(part)
-        m, _, merr = run_cmd(["bash", "-c", "ulimit -s unlimited 2>/dev/null; exec " + DRIVER], data)
-        i, _, ierr = run_cmd([PY, IMPL], data, env=impl_env)
+        m, _, merr = run_cmd(["bash", "-c", "ulimit -s unlimited 2>/dev/null; exec " + DRIVER], data, timeout=timeout)
+        i, _, ierr = run_cmd([PY, IMPL], data, env=impl_env, timeout=timeout)
         return m, i, merr, ierr
+
+    def work(part):
+        try:
+            return both(part, SHARD_TIMEOUT)
+        except subprocess.TimeoutExpired:
+            # some request of this shard needs more time than the budget (path explosion in a generated program):
+            # isolate it by running the requests one by one; a request over budget is recorded as resource-skipped on
+            # BOTH sides (never compared, counted in the evidence) -- a resource limit of the harness, not a verdict
+            m, i = {}, {}
+            for req in part:
+                try:
+                    m1, i1, _, _ = both([req], REQUEST_TIMEOUT)
+                    m.update(m1)
+                    i.update(i1)
+                except subprocess.TimeoutExpired:
+                    m[req[1]] = {"err": "resource-timeout"}
+                    i[req[1]] = {"err": "resource-timeout"}
+                    SKIPPED.append(req[1])
+            return m, i, "", ""
 
     with ThreadPoolExecutor(max_workers=shards) as ex:
         for m, i, merr, ierr in ex.map(work, parts):
